@@ -540,20 +540,20 @@ func (t *Target) gnmiUpdate(n *pb.Notification) (*ctree.Leaf, error) {
 		switch path[1] {
 		case metadata.Sync:
 			var ok bool
-			tv, ok := u.Val.Value.(*pb.TypedValue_BoolVal)
+			tv, ok := u.GetVal().GetValue().(*pb.TypedValue_BoolVal)
 			if !ok {
 				return nil, fmt.Errorf("%v : has value %v of type %T, expected boolean", metadata.Path(metadata.Sync), u.Val, u.Val)
 			}
 			t.sync = tv.BoolVal
 			t.meta.SetBool(metadata.Sync, t.sync)
 		case metadata.Connected:
-			tv, ok := u.Val.Value.(*pb.TypedValue_BoolVal)
+			tv, ok := u.GetVal().GetValue().(*pb.TypedValue_BoolVal)
 			if !ok {
 				return nil, fmt.Errorf("%v : has value %v of type %T, expected boolean", metadata.Path(metadata.Connected), u.Val, u.Val)
 			}
 			t.meta.SetBool(metadata.Connected, tv.BoolVal)
 		case metadata.ConnectedAddr, metadata.ConnectError:
-			tv, ok := u.Val.Value.(*pb.TypedValue_StringVal)
+			tv, ok := u.GetVal().GetValue().(*pb.TypedValue_StringVal)
 			if !ok {
 				return nil, fmt.Errorf("%v : has value %v of type %T, expected string", metadata.Path(path[1]), u.Val, u.Val)
 			}
